@@ -229,13 +229,15 @@ def main(tier, replay=None):
             for same in (True, False):
                 for form in ("ff", "fp", "pf", "pp"):     # f = file, p = pipe given as /dev/fd/N
                     rcases.append({"same": same, "form": form})
+                # a file name that is not valid UTF-8 (a latin-1 name on disk)
+                rcases.append({"same": same, "form": "ff", "latin1_name": True})
         for c in rcases:
             ta = "alpha\nbeta Tq1x\ngamma\n"
             tb = ta if c["same"] else "alpha\nBETA Tq2x\ngamma\n"
             fds, ops = [], []
             for side, text in zip(c["form"], (ta, tb)):
                 if side == "f":
-                    pth = tempfile.mktemp(dir=vlib.CACHE, prefix="real")
+                    pth = tempfile.mktemp(dir=vlib.CACHE, prefix="real") + ("-caf\udce9.txt" if c.get("latin1_name") else "")
                     open(pth, "w").write(text)
                     ops.append(pth)
                 else:
